@@ -35,7 +35,7 @@ import (
 // ---------------------------------------------------------------- cases
 
 type c18Ev struct {
-	K string `json:"k"`           // acqbegin acqtxn reacqtxn commit rellocal reldelete expire releaseall restart orphan
+	K string `json:"k"`           // acqbegin acqtxn reacqtxn commit rellocal reldelete expire expirelazy releaseall restart orphan
 	B int    `json:"b"`           // broker index
 	R int    `json:"r"`           // resource index
 	L int    `json:"l,omitempty"` // orphan: lease number (order of grant within the case, from 1)
@@ -54,6 +54,7 @@ type c18Obs struct {
 	keys [][2]int // per resource: {-1,-1} absent, else {owner broker index or -2, broker whose current session holds the key's lease or -1}
 	rev  int64    // store revision relative to the start of the case
 	sess []bool   // per broker: has a session
+	skip bool     // taken before the holder could observe its session loss: not compared, no oracle
 }
 
 // ---------------------------------------------------------------- gating KV
@@ -520,6 +521,30 @@ func (w *c18World) exec(ev c18Ev) (bool, int) {
 			time.Sleep(200 * time.Microsecond)
 		}
 		return true, -1
+	case "expirelazy":
+		// The session is lost and the FIRST code to notice is getOrCreateSession, reached through
+		// an Acquire of a resource this manager does not own (ev.R), not monitorSession: the
+		// manager's session pointer is replaced by a copy of the Session value, so the monitor
+		// goroutine of the original pointer finds m.session != session and does nothing. The
+		// run loop executes {acqbegin B R} right after this step. Needs: a session, no acquire
+		// in flight (flights hold the old pointer), R not owned; otherwise plain expiry.
+		s := m.session()
+		if s == nil {
+			return false, -1
+		}
+		if len(m.flights) > 0 || m.ownsRes(rid) {
+			return w.exec(c18Ev{K: "expire", B: ev.B, R: ev.R})
+		}
+		m.lm.mu.Lock()
+		cp := *s
+		m.lm.session = &cp
+		m.lm.mu.Unlock()
+		ctx, cancel := context.WithTimeout(context.Background(), 10*time.Second)
+		_, _ = w.root.Revoke(ctx, cp.Lease())
+		cancel()
+		cp.Orphan() // Done() is closed; nobody has looked yet
+		time.Sleep(2 * time.Millisecond)
+		return true, -1
 	case "releaseall":
 		// first step of ReleaseAll (closed, map cleared, session dropped); the LeaseRevoke of
 		// Session.Close stays parked until an "orphan" event expires that lease
@@ -660,7 +685,26 @@ func c18Run(t *testing.T, endpoints []string, root *clientv3.Client, cs c18Case)
 		}
 		o, after := w.observe()
 		o.res = code
+		lazy := ev.K == "expirelazy" && w.mgrs[ev.B].session() != nil
+		if ev.K == "expirelazy" && !lazy {
+			ev.K = "expire" // fell back to the plain expiry
+		}
 		done = append(done, ev)
+		if lazy {
+			// the holder has not run any code since its session died: nothing to compare yet;
+			// its next call is an Acquire of a resource it does not own
+			o.skip = true
+			obs = append(obs, o)
+			follow := c18Ev{K: "acqbegin", B: ev.B, R: ev.R}
+			if ok2, code2 := w.exec(follow); ok2 {
+				o, after = w.observe()
+				o.res = code2
+				done = append(done, follow)
+				ev = follow
+			} else {
+				continue
+			}
+		}
 		obs = append(obs, o)
 		step := len(done) - 1
 		// oracle 1: at no time do two brokers both believe they own the same lease
@@ -673,6 +717,16 @@ func c18Run(t *testing.T, endpoints []string, root *clientv3.Client, cs c18Case)
 			}
 			if len(owners) > 1 {
 				setFail("two-owners", fmt.Sprintf("step %d (%s b%d %s): brokers %v all own %q (etcd key: %v)", step, ev.K, ev.B+1, w.res[ev.R%len(w.res)], owners, rid, o.keys[j]))
+			}
+		}
+		// oracle 3: what a manager believes it owns is backed by etcd -- the key exists, stores its
+		// id and hangs on its current session's lease -- at every point where the manager has
+		// run code after its last session loss (all observation points except the skipped one)
+		for i := range w.mgrs {
+			for j, rid := range w.res {
+				if o.owns[i][j] && (o.keys[j][0] != i || o.keys[j][1] != i) {
+					setFail("owns-without-live-key", fmt.Sprintf("step %d (%s b%d): broker %d reports Owns(%q) but the etcd key is %v (owner index, session-holder index; -1 = absent / nobody's current session)", step, ev.K, ev.B+1, i+1, rid, o.keys[j]))
+				}
 			}
 		}
 		// oracle 2: a release never removes a lease that another broker has since acquired
@@ -744,7 +798,12 @@ func c18Gen(r *vRand) c18Case {
 		case x < 72:
 			scripts = append(scripts, c18Cat(c18Full(b, res), rel))
 		case x < 82:
-			scripts = append(scripts, []c18Ev{{K: "expire", B: b, R: res}})
+			if r.Chance(45) {
+				// session loss first noticed by an Acquire of another resource
+				scripts = append(scripts, []c18Ev{{K: "expirelazy", B: b, R: r.Intn(len(cs.Res))}})
+			} else {
+				scripts = append(scripts, []c18Ev{{K: "expire", B: b, R: res}})
+			}
 		case x < 86:
 			scripts = append(scripts, []c18Ev{{K: "releaseall", B: b, R: res}})
 		case x < 93:
@@ -845,8 +904,10 @@ func c18GenWindow(r *vRand) c18Case {
 			cs.Evs = c18Cat(cs.Evs, one("rellocal", o), one("reldelete", o))
 		case y < 80:
 			cs.Evs = c18Cat(cs.Evs, one("expire", x))
-		case y < 88:
+		case y < 84:
 			cs.Evs = c18Cat(cs.Evs, one("expire", o))
+		case y < 88:
+			cs.Evs = c18Cat(cs.Evs, []c18Ev{{K: "expirelazy", B: o, R: 1}}, []c18Ev{{K: "acqtxn", B: o, R: 1}, {K: "commit", B: o, R: 1}})
 		case y < 94:
 			cs.Evs = c18Cat(cs.Evs, one("reldelete", x))
 		default:
@@ -892,6 +953,10 @@ func c18Corpus() []c18Case {
 		// the key of a previous incarnation disappears and another broker acquires between the two
 		// transactions of the new incarnation's Acquire: the reacquire transaction must fail
 		{Kind: "plain", NB: 2, Res: []string{"x"}, Evs: c18Cat(c18Full(0, 0), one("restart", 0, 0), []c18Ev{{K: "acqbegin", B: 0, R: 0}, {K: "acqtxn", B: 0, R: 0}, {K: "orphan", L: 1}}, c18Full(1, 0), []c18Ev{{K: "reacqtxn", B: 0, R: 0}, {K: "commit", B: 0, R: 0}})},
+		// session loss noticed by getOrCreateSession (Acquire of another resource) before
+		// monitorSession: ownership must be cleared there too; B then takes the expired lease
+		{Kind: "plain", NB: 2, Res: []string{"x", "z"}, Evs: c18Cat(c18Full(0, 0), []c18Ev{{K: "expirelazy", B: 0, R: 1}, {K: "acqtxn", B: 0, R: 1}, {K: "commit", B: 0, R: 1}}, c18Full(1, 0), c18Full(0, 0))},
+		{Kind: "partition", NB: 2, Res: []string{"orders/0", "orders/1"}, Evs: c18Cat(c18Full(0, 0), c18Full(0, 1), one("rellocal", 0, 1), one("reldelete", 0, 1), []c18Ev{{K: "expirelazy", B: 0, R: 1}}, c18Full(1, 0), one("acqtxn", 0, 1), one("commit", 0, 1))},
 		// graceful shutdown, then a late acquire
 		{Kind: "partition", NB: 2, Res: []string{"orders/0", "orders/1"}, Evs: c18Cat(c18Full(0, 0), c18Full(0, 1), one("releaseall", 0, 0), c18Full(1, 0), []c18Ev{{K: "orphan", L: 1}}, c18Full(1, 0), c18Full(0, 0))},
 		// restart between the two steps of ReleaseAll: the lease is never revoked, it expires later
@@ -920,7 +985,7 @@ func c18CoqEv(cs c18Case, ev c18Ev) string {
 		return fmt.Sprintf("RelLocal %s %s", b, r)
 	case "reldelete":
 		return fmt.Sprintf("RelDelete %s %s", b, r)
-	case "expire":
+	case "expire", "expirelazy":
 		return fmt.Sprintf("SessionExpire %s", b)
 	case "releaseall":
 		return fmt.Sprintf("ReleaseAll %s", b)
@@ -976,7 +1041,7 @@ func c18Coq(cs c18Case, evs []c18Ev, obs []c18Obs) string {
 		for a, v := range o.sess {
 			ss[a] = cqBool(v)
 		}
-		os_[i] = fmt.Sprintf("mkObs %s %s %s %s %s", rs, cqList(rows), cqList(ks), cqZ(o.rev), cqList(ss))
+		os_[i] = fmt.Sprintf("mkObs %s %s %s %s %s %s", rs, cqList(rows), cqList(ks), cqZ(o.rev), cqList(ss), cqBool(o.skip))
 	}
 	return fmt.Sprintf("mkCase %s %s %s %s %s", cqStr(c18Prefix(cs.Kind)), cqList(brokers), cqList(res), cqList(es), cqList(os_))
 }
@@ -1001,9 +1066,10 @@ func c18Tags(evs []c18Ev, obs []c18Obs) map[string]bool {
 			pendingRel[[2]int{ev.B, ev.R}] = true
 		case "reldelete":
 			delete(pendingRel, [2]int{ev.B, ev.R})
-		case "acqtxn", "reacqtxn", "expire":
+		case "acqtxn", "reacqtxn", "expire", "expirelazy":
+			isExp := ev.K == "expire" || ev.K == "expirelazy"
 			for k := range pendingRel {
-				if ev.K == "expire" && k[0] == ev.B || ev.K != "expire" && k[1] == ev.R {
+				if isExp && k[0] == ev.B || !isExp && k[1] == ev.R {
 					tags["interleaved-release"] = true
 				}
 			}
@@ -1027,7 +1093,7 @@ func TestVerifC18(t *testing.T) {
 		exec.Evs = evs
 		canon, _ := json.Marshal(exec)
 		tags := c18Tags(evs, obs)
-		nt := tags["acquire-ok"] && (tags["interleaved-release"] || tags["ev:expire"] || tags["ev:restart"])
+		nt := tags["acquire-ok"] && (tags["interleaved-release"] || tags["ev:expire"] || tags["ev:expirelazy"] || tags["ev:restart"])
 		rep.Count(string(canon), nt)
 		for tg := range tags {
 			rep.Hist(tg)
